@@ -92,6 +92,7 @@ theorem instEffect_of_instOp {w : World} {op : Op} {i : InstId} {x : Name}
   | mkClass _ _ => simp [instOp] at ht
   | mkInst _ _ => simp [instOp] at ht
   | mutVal _ _ _ => simp [instOp] at ht
+  | mutItem _ _ _ _ => simp [instOp] at ht
   | setVal t y v =>
     cases t with
     | cls k => simp [instOp] at ht
@@ -216,6 +217,7 @@ theorem class_op_keeps_instances (w : World) (op : Op) (hc : classOp op = true) 
     | inst i => simp [classOp] at hc
     | cls k => exact (doSetCls_effect w k x v).instsEq
   | mutVal t x n => exact (doMutVal_frame w t x n).2.1
+  | mutItem t x i n => exact (doMutItem_frame w t x i n).2.1
   | slotSet t x s =>
     cases t with
     | inst i => simp [classOp] at hc
@@ -427,6 +429,46 @@ theorem mutation_touches_one_container (w : World) (t : Target) (x : Name) (n : 
     ∀ c : Nat, w.read t x ≠ some (.ref c) → deref (step w (.mutVal t x n)).1.cells c = deref w.cells c :=
   ⟨(doMutVal_frame w t x n).1, (doMutVal_frame w t x n).2.1, (doMutVal_frame w t x n).2.2.2⟩
 
+/-- … and so does `target.x[i].append(v)` on a tuple of lists: item `i` of the tuple `target.x` evaluates to, nothing else. -/
+theorem item_mutation_touches_one_container (w : World) (t : Target) (x : Name) (i : Nat) (n : Int) :
+    (step w (.mutItem t x i n)).1.classes = w.classes ∧ (step w (.mutItem t x i n)).1.insts = w.insts ∧
+    ∀ c : Nat, (∀ cs, w.read t x = some (.tup cs) → cs[i]? ≠ some c) →
+      deref (step w (.mutItem t x i n)).1.cells c = deref w.cells c :=
+  ⟨(doMutItem_frame w t x i n).1, (doMutItem_frame w t x i n).2.1, (doMutItem_frame w t x i n).2.2.2⟩
+
+/-- **C12 (nested mutable defaults).**  For a parameter with `instantiate=True` whose class default is a TUPLE of
+lists (`([0, 0], [0, 0])` — immutable itself, its items are not), a successful `K(**kwargs)` (not naming it) stores a
+tuple of NEW lists with equal contents (`copy.deepcopy` rebuilds the tuple around copies of its items); nobody but the
+new instance references any of them, not then and not after any further interleaving — so `inst.x[i].append(v)` is
+seen by nobody else — and the instance goes on holding that tuple until it is assigned there. -/
+theorem instantiate_true_tuple_items_copied (w : World) (k : ClsId) (kwargs : List (Name × Lit)) (x : Name)
+    (k' : ClsId) (P : PObj) (hu : Unassigned w k kwargs x k' P) (hi : P.instantiate = true)
+    (ds : List Nat) (hd : P.default = .tup ds) :
+    ∃ (I : Inst) (cs' : List Nat), (doMkInst w k kwargs).1.insts = w.insts ++ [I] ∧
+      aget I.values x = some (.tup cs') ∧ (∀ c' ∈ cs', w.cells.length ≤ c' ∧ c' ∉ ds) ∧
+      cs'.map (deref (doMkInst w k kwargs).1.cells) = ds.map (deref w.cells) ∧
+      ∀ ops : List Op, (∀ c' ∈ cs', ¬ heldOutside (run (doMkInst w k kwargs).1 ops) w.insts.length c') ∧
+        (neverSets w.insts.length x ops →
+          (run (doMkInst w k kwargs).1 ops).getInst w.insts.length x = some (.tup cs')) := by
+  obtain ⟨inv, hok, hx, hkw, hr⟩ := hu
+  obtain ⟨I, h1, _, _, h4⟩ := doMkInst_values inv.boundedCls hok
+  have hinit := h4 x hx hkw k' P hr
+  simp only [InitOK, hi, hd, if_true] at hinit
+  obtain ⟨cs', hv, hfresh, hcont⟩ := hinit
+  have hdl : ∀ d ∈ ds, d < w.cells.length := fun d hdm =>
+    inv.boundedCls d (resolve_held hr d (by simp [PObj.cells, hd, Val.cells, hdm]))
+  have hI : (doMkInst w k kwargs).1.insts[w.insts.length]? = some I := by rw [h1]; simp
+  refine ⟨I, cs', h1, hv, ?_, hcont, ?_⟩
+  · intro c' hc'
+    refine ⟨(hfresh c' hc').1, fun hm => ?_⟩
+    have := hdl c' hm
+    have := (hfresh c' hc').1
+    omega
+  · intro ops
+    refine ⟨fun c' hc' => private_stays_private_run ops _ _ c' (hfresh c' hc').2
+        ((doMkInst_effect w k kwargs).1.fresh_private inv (hfresh c' hc').1),
+      fun hn => (set_instance_keeps_own _ ops _ I x hI hn).1 _ hv⟩
+
 /-- **C12 (class-level copy-on-write).**  `K.x = v` on a class that inherits `x` installs a Parameter object
 of its own whose mutable attribute values (`_objects`, `names`, list `bounds`, ...) are NEW containers: from
 then on in-place changes of the subclass's Parameter attributes do not reach the ancestor's (only `default`
@@ -541,6 +583,17 @@ example : ∃ k' P, Unassigned c12World 0 [] 2 k' P ∧ P.instantiate = true := 
 example : classOp (.setVal (.cls 0) 1 (.int 50)) = true := rfl
 example : deref (run c12World [.access 0 1, .setVal (.cls 0) 1 (.int 50)]).cells 1 = [1, 2, 50] ∧
     deref (run c12World [.access 0 1, .setVal (.cls 0) 1 (.int 50)]).cells 7 = [1, 2] := by decide
+-- a tuple of lists as `instantiate=True` default: every instance gets a tuple of NEW lists (class 0,1; instances 2,3 and 4,5);
+-- `inst0.p[0].append(9)` changes list 2 only
+def c12TupDecl : Decl :=
+  { name := 0, kind := .plain, default := .tup [[0, 0], [1]], instantiate := true, constant := false, perInstance := true,
+    checkOnSet := false, boundsTup := none, boundsList := none, objects := none }
+def c12TupWorld : World := run World.empty [.mkClass [] [c12TupDecl], .mkInst 0 [], .mkInst 0 []]
+example : c12TupWorld.getCls 0 0 = some (.tup [0, 1]) ∧ c12TupWorld.getInst 0 0 = some (.tup [2, 3]) ∧
+    c12TupWorld.getInst 1 0 = some (.tup [4, 5]) := by decide
+example : deref (run c12TupWorld [.mutItem (.inst 0) 0 0 9]).cells 2 = [0, 0, 9] ∧
+    deref (run c12TupWorld [.mutItem (.inst 0) 0 0 9]).cells 0 = [0, 0] ∧
+    deref (run c12TupWorld [.mutItem (.inst 0) 0 0 9]).cells 4 = [0, 0] := by decide
 -- the subclass follows the class default until it is assigned there (copy-on-write)
 example : (run c12World [.setVal (.cls 0) 0 (.int 7)]).getInst 1 0 = some (.int 7) := by decide
 example : (run c12World [.setVal (.cls 1) 0 (.int 9), .setVal (.cls 0) 0 (.int 7)]).getInst 1 0 = some (.int 9) := by decide
